@@ -4,7 +4,7 @@ configuration files exist; after every event there must be exactly one file per 
 import json
 from . import common as C, arb
 
-CID, DX, DS, DC, DF, CNEV, DD, DK, DL, DFILES = range(10)
+CID, DX, DS, DC, DF, CNEV, DD, DK, DL, DFILES, DPT = range(11)
 
 
 def replay_files(run, path):
@@ -44,3 +44,16 @@ def judge_files(run, cases):
                         "C10: after step %d of case %d (%s %s %s/%s through the real lbc.sync) the per-resource configuration files are not one per served resource: files %s, served %s"
                         % (r[DFILES], c["id"], ev["op"], ev["spec"]["kind"], ev["spec"].get("ns"), ev["spec"].get("name"), json.dumps(st["files"]), json.dumps(served)),
                         theorem="Arb.Cases.files_ok")
+        elif r[DPT] != 0:
+            judge_pt(run, c, r, "C10")
+
+
+def judge_pt(run, c, r, pid):
+    st = c["ctl"][r[DPT] - 1]
+    ev = c["histories"][0]["events"][r[DPT] - 1]
+    served = sorted((x["ts"]["host"], "%s/%s" % (x["ts"]["meta"]["ns"], x["ts"]["meta"]["name"])) for x in st["res"] if x["k"] == "ts" and x["ts"]["proto"] == "TLS_PASSTHROUGH")
+    run.failing({"kind": "passthrough-map", "level": "controller"}, [c],
+                "%s: after step %d of case %d (%s %s %s/%s through the real lbc.sync and Configurator over a manager that, like LocalManager, reports whether a file's content changed) "
+                "tls-passthrough-hosts.conf does not route exactly the hosts of the TLS passthrough TransportServers being served: file %s, served %s"
+                % (pid, r[DPT], c["id"], ev["op"], ev["spec"]["kind"], ev["spec"].get("ns"), ev["spec"].get("name"), json.dumps(st["pt"]), json.dumps(served)),
+                theorem="Arb.Cases.pt_ok")
